@@ -49,7 +49,10 @@ def nontrivial(r):
 def parts():
     return [core.Part('server', 'harness.scen_server', 'server', 400, 8000, 'DriverServer', sv.coq_server_case,
                       oracle, nontrivial, shard=150,
-                      describe=lambda r: {k: r.get(k) for k in ('cfg', 'strategy', 'verdict', 'outcome', 'outcomes', 'events')})]
+                      describe=lambda r: {k: r.get(k) for k in ('cfg', 'strategy', 'verdict', 'outcome', 'outcomes', 'events')}),
+            # AsyncServer / process servlets for real: abandoned requests (timeouts, cancelled callers, cancelled waiters) among
+            # callers that must still be answered, then three plain calls and the exit
+            __import__('harness.scen_backlog', fromlist=['part']).part(14, 200)]
 
 
 def check(tier, seed, replay=None):
